@@ -1,46 +1,76 @@
 #!/venv/bin/python
-"""Re-run the registered quick checks against every confirmed seeded change (apply to /repo, check, undo) and record
-`caught_now` in its meta.json.  Used after checks were strengthened."""
-import json, os, subprocess, sys
+"""Re-run the registered quick checks against every confirmed seeded change and record `caught_now` in its meta.json.
+Used after checks were strengthened.
+
+Each seed is applied to its own scratch export of /repo HEAD under tempfile.mkdtemp() (removed afterwards) and the checks run
+with `--repo <scratch> --no-write`, so seeds are evaluated in parallel and /repo itself is never touched.
+
+usage: seed_recheck.py [substring ...] [--all-props] [-j N]
+  default: only the check of the seed's own property plus the checks that caught it before; --all-props runs all 19.
+"""
+import json
+import os
+import shutil
+import subprocess
+import sys
+import tempfile
+from concurrent.futures import ThreadPoolExecutor
+
 VERIF = os.path.dirname(os.path.dirname(os.path.abspath(__file__)))
+
 
 def sh(cmd, cwd=None):
     r = subprocess.run(cmd, shell=True, cwd=cwd, capture_output=True, text=True)
     return r.returncode, "\n".join(l for l in (r.stdout + r.stderr).splitlines() if "conda.cli.condarc" not in l)
 
-def main():
-    only = sys.argv[1:]
-    props = [c["property_id"] for c in json.load(open(os.path.join(VERIF, "MANIFEST.json")))["checks"]]
-    rc, out = sh("git -C /repo status --porcelain")
-    assert not out.strip(), "/repo not clean"
-    for d in sorted(os.listdir(os.path.join(VERIF, "seeded"))):
-        if only and not any(o in d for o in only):
-            continue
-        mp = os.path.join(VERIF, "seeded", d, "meta.json")
-        if not os.path.exists(mp):
-            continue
-        meta = json.load(open(mp))
-        rc, out = sh(f"git -C /repo apply {os.path.join(VERIF, 'seeded', d, 'patch.diff')}")
+
+def one(d, props_all, all_props):
+    mp = os.path.join(VERIF, "seeded", d, "meta.json")
+    if not os.path.exists(mp):
+        return None
+    meta = json.load(open(mp))
+    scratch = tempfile.mkdtemp(prefix="seedrc_")
+    try:
+        rc, out = sh(f"git -C /repo archive HEAD | tar -x -C {scratch}")
         if rc != 0:
-            print(d, "patch does not apply:", out[:200]); continue
+            return f"{d}: export failed: {out[:200]}"
+        rc, out = sh(f"patch -p1 -s < {os.path.join(VERIF, 'seeded', d, 'patch.diff')}", cwd=scratch)
+        if rc != 0:
+            return f"{d}: patch does not apply: {out[:200]}"
+        props = props_all if all_props else sorted({meta["property"]} | set(meta.get("caught_by") or []) | set(meta.get("caught_now") or []))
         caught, und, why = [], [], {}
-        try:
-            for p in props:
-                rc, out = sh(f"./check {p} --tier quick --no-write", cwd=VERIF)
-                if rc == 1:
-                    caught.append(p)
-                    why[p] = [l[:260] for l in out.splitlines() if l.startswith("REFUTED")][:2]
-                elif rc == 2:
-                    und.append(p)
-        finally:
-            sh("git -C /repo checkout -- .")
+        for p in props:
+            rc, out = sh(f"./check {p} --tier quick --no-write --repo {scratch}", cwd=VERIF)
+            if rc == 1:
+                caught.append(p)
+                why[p] = [l[:260].replace(scratch, "<scratch>") for l in out.splitlines() if l.startswith("REFUTED")][:2]
+            elif rc == 2:
+                und.append(p)
         meta["caught_now"] = caught
         meta["undecided_now"] = und
         meta["refutations_now"] = why
+        meta["checks_run_now"] = props
         meta["caught_by_target_property_check_now"] = meta["property"] in caught
         json.dump(meta, open(mp, "w"), indent=1)
-        print(f"{d}: first run caught_by={meta.get('caught_by')}  now={caught}  undecided={und}")
-    rc, out = sh("git -C /repo status --porcelain")
-    assert not out.strip()
+        return f"{d}: first run caught_by={meta.get('caught_by')}  now={caught}  undecided={und}"
+    finally:
+        shutil.rmtree(scratch, ignore_errors=True)
+
+
+def main():
+    args = [a for a in sys.argv[1:]]
+    all_props = "--all-props" in args
+    jobs = 12
+    if "-j" in args:
+        jobs = int(args[args.index("-j") + 1])
+        del args[args.index("-j"):args.index("-j") + 2]
+    only = [a for a in args if not a.startswith("--")]
+    props_all = [c["property_id"] for c in json.load(open(os.path.join(VERIF, "MANIFEST.json")))["checks"]]
+    seeds = [d for d in sorted(os.listdir(os.path.join(VERIF, "seeded"))) if not only or any(o in d for o in only)]
+    with ThreadPoolExecutor(max_workers=jobs) as ex:
+        for line in ex.map(lambda d: one(d, props_all, all_props), seeds):
+            if line:
+                print(line, flush=True)
+
 
 main()
